@@ -104,6 +104,13 @@ def rule_merges(ctx, P="C13"):
                     "offset == 0 || offset == prev.end": lambda a, v: a[0] == "bin" and a[1] == "Eq" and v == 1 and any(s[0] == "field" and s[2] == "offset" for s in walk(a)),
                     "perms == PRIVATE": lambda a, v: callname(a) == "eq" and "MMPermissions" in a[1] and v == 1 and any(is_const(s) and s[1] == 16 for s in walk(a)),
                 }
+        if is_fold:
+            # the element that is extended is the library that was tested: the FIRST OF THE LAST TWO elements (a tail view of the list —
+            # rchunks_exact(_mut)(2), split_last_mut, len()-2), not `first_mut()` of the whole list, which is the same element only while
+            # the list has exactly two entries
+            tail = any(s[0] == "call" and callname(s) in ("rchunks_exact_mut", "rchunks_exact", "rchunks_mut", "rchunks", "split_last_mut", "split_last", "windows", "get_mut", "index_mut") for s in walk(tgt))
+            ctx.check(tail, R, ("fold", "target-is-second-to-last"), b.where(bi, si), "the fold extends the first of the last two derived mappings",
+                      "the fold extends %s: that is the library that was tested only while the list has two entries — with a longer list the first mapping of the whole map is stretched over everything in between" % show(tgt)[:120])
         kinds_seen[kind] = kinds_seen.get(kind, 0) + 1
         for name, pred in req.items():
             ok = all(has(c, pred) for c in dnf)
